@@ -215,7 +215,7 @@ func shuffle(r *rnd, xs []string) []string {
 func pair(r *rnd, a0 state) (state, state, string) {
 	a := a0.clone()
 	b := a.clone()
-	switch r.intn(25) {
+	switch r.intn(27) {
 	case 0:
 		b.Inputs = shuffle(r, a.Inputs)
 		return a, b, "eq:permute-inputs"
@@ -423,6 +423,44 @@ func pair(r *rnd, a0 state) (state, state, string) {
 			c[len(c)-1] ^= 1 // same size, different content
 			b.Files[tgt] = string(c)
 			return a, b, "ne:symlinked-input-content"
+		}
+		return a, b, "eq:re-evaluate"
+	case 24, 25: // content shift between adjacent inputs that are reached through symlinks
+		ins := append([]string{}, a.Inputs...)
+		sort.Strings(ins)
+		for i := 0; i+1 < len(ins); i++ {
+			c0, ok0 := a.Files[ins[i]]
+			c1, ok1 := a.Files[ins[i+1]]
+			_, l0 := a.Links[ins[i]]
+			_, l1 := a.Links[ins[i+1]]
+			if !ok0 || !ok1 || len(c0) == 0 || l0 || l1 || contains(a.Inputs, "zz_tgt0") {
+				continue
+			}
+			// both (or only the first / only the second) become symlinks to non-input files
+			which := r.intn(3)
+			for _, st := range []*state{&a, &b} {
+				if which != 2 {
+					delete(st.Files, ins[i])
+					st.Files["zz_tgt0"] = c0
+					st.Links[ins[i]] = "zz_tgt0"
+				}
+				if which != 1 {
+					delete(st.Files, ins[i+1])
+					st.Files["zz_tgt1"] = c1
+					st.Links[ins[i+1]] = "zz_tgt1"
+				}
+			}
+			k := 1 + r.intn(len(c0))
+			set := func(st *state, in, tgt, content string) {
+				if _, isLink := st.Links[in]; isLink {
+					st.Files[tgt] = content
+				} else {
+					st.Files[in] = content
+				}
+			}
+			set(&b, ins[i], "zz_tgt0", c0[:len(c0)-k])
+			set(&b, ins[i+1], "zz_tgt1", c0[len(c0)-k:]+c1)
+			return a, b, "ne:content-shift-between-adjacent-symlinked-inputs"
 		}
 		return a, b, "eq:re-evaluate"
 	default: // package vs name boundary: //p:qx vs //p/q:x cannot collide textually; use label prefix
